@@ -1,5 +1,3 @@
-//go:build verif_c14
-
 package harness
 
 import (
